@@ -53,6 +53,21 @@ type c05Case struct {
 
 var c05PTShapes = []string{"empty", "one", "aligned16", "aligned32", "minus1", "plus1", "large", "incompressible", "compressible"}
 
+// c05ZipShapes: plaintexts for the compression stream (zip = DEF): 4 KiB / 64 KiB / 1 MiB of one byte, 16-256 KiB
+// of repeated JSON text, 64 KiB incompressible, and length boundaries around 2-8 KiB.
+var c05ZipShapes = func() []string {
+	out := []string{"rep4096", "rep65536", "rep1048576", "json16384", "json65536", "json262144", "rand64k", "mix16384", "mix200000"}
+	for _, b := range []int{2048, 4096, 8192} {
+		for _, d := range []int{-1, 0, 1} {
+			out = append(out, fmt.Sprintf("rep%d", b+d), fmt.Sprintf("json%d", b+d))
+		}
+	}
+	return append(out, "rep3000", "rep6000", "json5000", "rep32767", "rep32768", "rep32769")
+}()
+
+// c05ZipAlgs: one algorithm per family for the compression stream.
+var c05ZipAlgs = []string{"A128KW", "dir", "RSA-OAEP", "A256GCMKW", "PBES2-HS256+A128KW", "ECDH-ES", "ECDH-ES+A256KW"}
+
 func c05Plaintext(shape string, r *vf.Rand, quick bool) []byte {
 	switch shape {
 	case "empty":
@@ -77,6 +92,24 @@ func c05Plaintext(shape string, r *vf.Rand, quick bool) []byte {
 		return r.Bytes(300 + r.Intn(300))
 	case "compressible":
 		return bytes.Repeat([]byte("all work and no play makes jack a dull boy. "), 20+r.Intn(40))
+	case "rand64k":
+		return r.Bytes(65536)
+	}
+	// highly compressible plaintexts (ratio far above 100:1) and length boundaries; the names carry the size
+	var n int
+	switch {
+	case strings.HasPrefix(shape, "rep"): // rep<bytes>: one repeated byte
+		fmt.Sscanf(shape, "rep%d", &n)
+		return bytes.Repeat([]byte{byte(r.Intn(256))}, n)
+	case strings.HasPrefix(shape, "json"): // json<bytes>: repeated JSON text
+		fmt.Sscanf(shape, "json%d", &n)
+		unit := []byte(`{"iss":"joe","exp":1300819380,"http://example.com/is_root":true,"list":[1,2,3,{"a":null}]},`)
+		out := append([]byte("["), bytes.Repeat(unit, n/len(unit)+1)...)
+		return append(out[:n-1], ']')
+	case strings.HasPrefix(shape, "mix"): // mix<bytes>: a random head then a long run (boundary inside a run)
+		fmt.Sscanf(shape, "mix%d", &n)
+		head := r.Bytes(n / 8)
+		return append(head, bytes.Repeat([]byte{'z'}, n-len(head))...)
 	}
 	return []byte(shape)
 }
@@ -180,7 +213,10 @@ func checkDecrypt(c *vf.Ctx, d *vf.Driver, e *c05Env, cs any, data []byte, ser s
 	if e.lawFail != "" {
 		c.Fail(vf.Violation{Kind: "correspondence", Class: "oracle-law", What: e.lawFail, Case: cs})
 	}
-	if want != nil && !(goat.Tag == "ok" && bytes.Equal(goat.PT, want)) {
+	if want != nil && goat.Tag == "ok" && len(goat.PT) != len(want) {
+		c.Fail(vf.Violation{Kind: "property", Class: "c05-plaintext-truncated", What: what + ": decrypts to a plaintext of a different length", Case: cs,
+			Observed: fmt.Sprintf("ok(%d bytes)", len(goat.PT)), Required: fmt.Sprintf("ok(%d bytes)", len(want))})
+	} else if want != nil && !(goat.Tag == "ok" && bytes.Equal(goat.PT, want)) {
 		c.Fail(vf.Violation{Kind: "property", Class: classIfWrong, What: what + ": does not decrypt to the plaintext", Case: cs,
 			Observed: goat.String(), Required: fmt.Sprintf("ok(%d bytes)", len(want))})
 	}
@@ -190,6 +226,7 @@ func checkDecrypt(c *vf.Ctx, d *vf.Driver, e *c05Env, cs any, data []byte, ser s
 // ---- mode goat ------------------------------------------------------------------------------
 
 type goatBuild struct {
+	msg   *jwe.Message // the sender-side object
 	data  []byte
 	ser   string
 	env   *c05Env
@@ -321,6 +358,7 @@ func buildGoat(cs c05Case, pt []byte, e *c05Env, algs []string, ecdhVariant int)
 			}
 			extras = append(extras, vf.Arr(handleWire(algs[i], keyID), hw))
 		}
+		b.msg = msg
 		ser := "json"
 		if cs.Ser == "compact" {
 			ser = "compact"
@@ -867,6 +905,35 @@ func runC05(c *vf.Ctx) {
 			}
 		}
 	}
+	var zipJobs []c05Case
+	// compression stream: zip = DEF with highly compressible / large / boundary-length plaintexts, both modes,
+	// every serialization, one algorithm per family, two content encryptions
+	for _, mode := range []string{"goat", "indep"} {
+		for _, sh := range c05ZipShapes {
+			for _, ser := range sers[mode] {
+				type ae struct{ alg, enc string }
+				var combos []ae
+				for _, alg := range c05ZipAlgs {
+					for _, enc := range []string{"A128CBC-HS256", "A256GCM"} {
+						if mode == "goat" && (jIsECDH(alg) || (ser == "json-multi" && alg == "dir")) {
+							continue
+						}
+						combos = append(combos, ae{alg, enc})
+					}
+				}
+				big := sh == "rep1048576" || sh == "json262144" || sh == "mix200000"
+				if c.Quick() || big {
+					// quick (and the biggest plaintexts): every shape with every serialization, one sampled (alg, enc)
+					combos = []ae{vf.Pick(r, combos)}
+				}
+				for _, x := range combos {
+					c.Count("zip-stream")
+					zipJobs = append(zipJobs, genC05(r, mode, x.alg, x.enc, true, ser, sh))
+				}
+			}
+		}
+	}
+	jobs = append(zipJobs, jobs...) // the long ones first
 	c.Set("grid", "17 alg x 6 enc x {none,DEF} x {compact,json,json-multi[,flat]} x plaintext shapes x (apu,apv) shapes; modes goat/indep; cookbook vectors")
 	next := make(chan c05Case, 64)
 	go func() {
